@@ -492,6 +492,81 @@ pub fn run(args: &[String]) -> i32 {
         );
         merge(&mut rep, "maps_and_generics", accs, &stats, json!({"shapes": ["HashMap<K,V>", "Vec<HashMap<K,V>>", "G1<A>", "G<A,K>", "Option<G<K,A>>"], "keys": ["String", "u32", "User"], "argument_chain_constructors": vdepth, "mappings": ["none", "User->Mapped", "G->MappedG", "map instances: HashMap<String,u32>, HashMap<String,String>, HashMap<u32,Vec<u8>>, HashMap<String,User> (TS/Go/Python)"]}));
     }
+    // 3b. a mapped generic base swallows its arguments: whatever stands between the angle brackets, the output is the
+    //     one of the same program with `u32` there (differential; no expected text written by hand)
+    {
+        const ARGS: [&str; 9] = ["u32", "()", "OffsetDateTime", "Vec<u8>", "User", "Option<String>", "HashMap<String, ()>", "I54", "Vec<Option<OffsetDateTime>>"];
+        const SITES: [&str; 4] = ["field", "alias-target", "variant-payload", "inside-vec-field"];
+        fn source(arg: &str, site: &str) -> String {
+            let g = format!("Stamped<{arg}>");
+            let user = "#[typeshare]\npub struct User { pub u: u32 }\n";
+            let body = match site {
+                "field" => format!("#[typeshare]\npub struct Outer {{ pub a: {g}, pub n: u32 }}\n"),
+                "alias-target" => format!("#[typeshare]\npub type Outer = {g};\n"),
+                "variant-payload" => format!("#[typeshare]\n#[serde(tag = \"t\", content = \"c\")]\npub enum Outer {{ A({g}), B {{ x: {g} }}, C }}\n"),
+                _ => format!("#[typeshare]\npub struct Outer {{ pub a: Vec<{g}>, pub m: HashMap<String, {g}> }}\n"),
+            };
+            format!("{user}{body}")
+        }
+        let (accs, stats) = explore(
+            |ch| {
+                ch.choose("argument", ARGS.len() - 1);
+            },
+            |ch, acc: &mut Acc| {
+                let arg = ARGS[1 + ch.choose("argument", ARGS.len() - 1)];
+                let site = *ch.pick("site", &SITES);
+                let lang = *ch.pick("lang", &ALL_LANGS);
+                let mut cfg = if ch.flag("cfg") { Cfg::prefixed() } else { Cfg::plain() };
+                cfg.type_mappings.push(("Stamped".into(), "MappedStamped".into()));
+                if ch.flag("bytes_mapping_in_force") {
+                    match lang {
+                        Lang::TypeScript => cfg.type_mappings.push(("Vec<u8>".into(), "Uint8Array".into())),
+                        Lang::Python => cfg.type_mappings.push(("Vec<u8>".into(), "bytes".into())),
+                        Lang::Go => cfg.type_mappings.push(("Vec<u8>".into(), "[]byte".into())),
+                        _ => {
+                            acc.out_of_scope += 1;
+                            return;
+                        }
+                    }
+                }
+                acc.runs += 1;
+                acc.judgements += 1;
+                let run = |a: &str| crate::pipeline::run(&[crate::pipeline::SrcFile::single(source(a, site))], lang, &cfg);
+                let (base, got) = (run("u32"), run(arg));
+                let show = |o: &crate::pipeline::Outcome| match o {
+                    crate::pipeline::Outcome::Ok(m) => m.values().next().cloned().unwrap_or_default(),
+                    other => format!("<{}: {}>", other.kind(), format!("{other:?}").chars().take(200).collect::<String>()),
+                };
+                let (bt, gt) = (show(&base), show(&got));
+                // the argument may still count as a dependency for the order of the definitions (C11's business): the
+                // outputs are compared as multisets of their non-empty lines
+                let blocks = |t: &str| {
+                    let mut b: Vec<String> = t.lines().map(|x| x.trim_end().to_string()).filter(|x| !x.is_empty()).collect();
+                    b.sort();
+                    b
+                };
+                let same = blocks(&bt) == blocks(&gt);
+                acc.inputs.insert(report::fnv64(&format!("{}|{site}", source(arg, site))));
+                acc.nontrivial.insert(report::fnv64(&format!("{arg}|{site}|{}", lang.name())));
+                acc.outcomes.insert(report::fnv64(&format!("{}|{}", lang.name(), same)));
+                if !matches!(base, crate::pipeline::Outcome::Ok(_)) {
+                    acc.vios.add(Violation { sig: format!("C05|{}|mapped-generic-base|baseline-not-generated:{}|site={site}", lang.name(), base.kind()), detail: json!({"lang": lang.name(), "source": source("u32", site), "type_mappings": cfg.type_mappings, "outcome": bt}) });
+                } else if !same {
+                    let first = bt.lines().zip(gt.lines()).find(|(a, b)| a != b).map(|(a, b)| format!("{a}  ≠  {b}")).unwrap_or_else(|| "one output is a prefix of the other".into());
+                    acc.vios.add(Violation {
+                        sig: format!("C05|{}|mapped-generic-base|argument-shows-in-output|arg={arg}|site={site}|outcome={}", lang.name(), got.kind()),
+                        detail: json!({"choices": ch.choices(), "lang": lang.name(), "argument": arg, "site": site, "type_mappings": cfg.type_mappings, "source": source(arg, site), "output": gt, "output_with_u32_argument": bt, "first_difference": first,
+                            "observation": "`Stamped` is mapped, so the configured name replaces the whole type expression `Stamped<..>`; its argument must not influence the output"}),
+                    });
+                }
+            },
+            Mode::Product,
+            2,
+            report::threads(),
+            u64::MAX,
+        );
+        merge(&mut rep, "mapped_generic_base_swallows_arguments", accs, &stats, json!({"arguments": &ARGS[1..], "reference_argument": "u32", "sites": SITES, "bytes_mapping_in_force": [false, true], "languages": 6, "configs": 2, "oracle": "the same multiset of lines (the order of the definitions may differ: C11)"}));
+    }
     // 4. const type (leaf types; backends with const support)
     {
         let (accs, stats) = explore(
